@@ -17,7 +17,11 @@ THEOREMS = ['C03.journal_is_declaration', 'C03.memoisation_keeps_journal', 'C03.
             # run saves every suggestion at most once and every axiom once, so with B = 256 no Load addresses a slot beyond 255; attained by
             # the 129-axiom module (256 entries, Load 255)
             'C03.finalize_budget', 'C03.finalize_budget_general', 'C03.memo_run_memory_bound', 'C03.canonical_plain', 'C03.optimized_run_fits',
-            'C03.optimized_slots_fit_in_a_byte', 'C03.load_operands_below_memory', 'C03.budget_attained']
+            'C03.optimized_slots_fit_in_a_byte', 'C03.load_operands_below_memory', 'C03.budget_attained',
+            # hypotheses discharged (Props/C03d.lean, SlotBudget2.lean): reachable analyser states have the budget fields untouched; seq ⊆ == on shaped
+            # patterns with distinct keys; the memoising bound under shape + distinct keys only (Canonical S itself is FALSE for notation nodes)
+            'C03.recording_frame', 'C03.finalize_budget_reachable', 'C03.counting_run_memory', 'C03.analyser_memory_is_axioms', 'C03.seq_implies_peq',
+            'C03.canonical_fails', 'C03.memo_run_memory_bound2', 'C03.optimized_serialisation_fits_in_a_byte']
 
 
 def declared(m):
